@@ -26,6 +26,8 @@ ZERO = Aff.const(0)
 def region_name(path: Path) -> str:
     parts = []
     for tag, v in path.choices:
+        if tag.startswith("spec "):
+            tag = tag[5:]
         if tag.startswith("arith "):
             e = tag[6:]
             if v:
@@ -57,6 +59,7 @@ def run_paths(ctx, fi: FuncInfo, make_args: Callable[[Interp], tuple], facts: Li
         except StepDone as sd:
             out = Outcome("step", None, path, env=sd.env)
         out.interp = I
+        path.in_spec = True
         out.checks = post(I, out) if post is not None else []
         return out
 
